@@ -27,7 +27,7 @@ ASSUMPTIONS = [
     "float64, CPU",
     "reference R1 (vp/ref/cable.py): dense Laplacian with zero-capacitance Kirchhoff nodes, numpy.linalg.solve",
     "parameter ranges radius [0.1,20] um, length [0.5,500] um, Ra [10,2e4] ohm cm, cm [0.1,5] uF/cm2, g [1e-6,1e-2] S/cm2",
-    "acceptance: backward error <= 1e-8 and |v'-v_ref| <= (1e3*n*eps*cond + 1e-10)*max|v| + 1e-8 mV (1e-10: cancellation of the library's secant conductance (i(v+1e-3)-i(v))/1e-3); cases with cond>1e12 are filtered",
+    "acceptance: backward error <= 1e-8 and |v'-v_ref| <= (1e3*n*eps*cond + 1e-9)*max|v| + 1e-8 mV (1e-9: cancellation of the library's secant conductance (i(v+d)-i(v))/d, d = 1e-3 today, with a decade of margin); cases with cond>1e12 are filtered",
     "a backend that raises is a counted refusal, as the property allows",
 ]
 TECHNIQUE = "property-based testing (Hypothesis) against an independent dense reference solver + differential across backends"
@@ -165,7 +165,7 @@ def judge(spec, tier="quick"):
                 out.filtered += 1
                 continue
             scale = max(np.max(np.abs(got)), np.max(np.abs(ref)), 1.0)
-            fwd_tol = (1e3 * N * np.finfo(float).eps * cond + 1e-10) * scale + 1e-8
+            fwd_tol = (1e3 * N * np.finfo(float).eps * cond + 1e-9) * scale + 1e-8
             errv = float(np.max(np.abs(got - ref)))
             out.evals += 1
             results[(solver, backend)] = got
@@ -200,7 +200,7 @@ def judge(spec, tier="quick"):
             be, cond = cab.backward_error(solver, dt, v0, got[:, 1], gm_mS, const)
             if cond <= 1e12:
                 scale = max(np.max(np.abs(got[:, 1])), 1.0) if np.isfinite(got[:, 1]).all() else 1.0
-                fwd_tol = (1e3 * N * np.finfo(float).eps * cond + 1e-10) * scale + 1e-8
+                fwd_tol = (1e3 * N * np.finfo(float).eps * cond + 1e-9) * scale + 1e-8
                 errv = float(np.max(np.abs(got[:, 1] - ref)))
                 e0 = float(np.max(np.abs(got[:, 0] - v0)))
                 out.evals += 1
